@@ -211,6 +211,7 @@ Proof.
   - (* L_re_mul_real *) exact Cre_mul_real.
   - (* L_re_inv_real *) exact Cre_inv_real.
   - (* L_root_prim *) exact root_prim_R.
+  - (* L_ltb_irrefl *) intros x. destruct (Rlt_dec (fst x) (fst x)) as [H|H]; [exfalso; exact (Rlt_irrefl _ H)|reflexivity].
 Qed.
 
 Print Assumptions ROps_laws.
